@@ -54,7 +54,7 @@ D = {
   nontriv='lambda evs: sum(1 for e in evs if e["ev"] in ("deq", "cb")) >= 3',
   rule="generated channel programs (1-3 channels, both directions, 1-2 receiver threads or a callback per channel, two sender threads on one channel, channels passed over channels)",
   ntext="non-trivial = at least 3 items delivered", known="None"),
-"c03": dict(post='ctx.coverage["chanlife_replay"] = life\n    ctx.coverage["channel_file_delivery"] = cfd\n    ctx.coverage["multichannel_real"] = multi', extra='life = gc.chanlife_part(ctx, ["C03."], 3 if ctx.quick else 5)\n    cfd = gc.chanfile_delivery_part(ctx, rng, ["C02.", "C03."])\n    multi = gc.multi_part(ctx, ["C03."])',title="C03 -- close is ordered after data and observed consistently by both sides",
+"c03": dict(post='ctx.coverage["chanlife_replay"] = life\n    ctx.coverage["channel_file_delivery"] = cfd\n    ctx.coverage["multichannel_real"] = multi\n    ctx.coverage["closed_channel_receives"] = crecv', extra='life = gc.chanlife_part(ctx, ["C03."], 3 if ctx.quick else 5)\n    cfd = gc.chanfile_delivery_part(ctx, rng, ["C02.", "C03."])\n    multi = gc.multi_part(ctx, ["C03."])\n    crecv = gc.closed_receive_part(ctx)',title="C03 -- close is ordered after data and observed consistently by both sides",
   cfgs='["GW_data", "GW_lclose"] if ctx.quick else ["GW_data", "GW_err", "GW_lclose", "GW_data_big", "GW_all_big"]', mutants='["GW_close_unfixed"]',
   fam="c03_programs(rng, 10 if ctx.quick else 80)", own='["C03.", "C10.endmarker-before-last-item"]',
   line='["close", "_local_close", "_no_longer_opened", "receive", "waitclose", "send", "isclosed", "__del__"]',
